@@ -159,11 +159,15 @@ pub fn run(ctx: &Ctx) -> Report {
     rep.run_stage("wide", move || wide_case(max), nw, check_case);
     let corpus = corpus_ast_cases(40, 150, 4, ctx);
     rep.run_enum("corpus", &corpus, check_corpus);
+    super::scale::run(&mut rep, ctx, "C04");
     rep
 }
 
 pub fn replay(stage: &str, case: &Value) -> Check {
     let mut st = Stats::new();
+    if stage == "scale" {
+        return super::scale::replay(case);
+    }
     match stage {
         "ast" | "wide" => check_case(&serde_json::from_value(case.clone()).map_err(|e| Fail::new("harness-replay", e.to_string()))?, &mut st),
         "corpus" => check_corpus(&serde_json::from_value(case.clone()).map_err(|e| Fail::new("harness-replay", e.to_string()))?, &mut st),
